@@ -128,6 +128,10 @@ def entry_functions(ctx):
     for q in ('CellWrapper.__call__', 'Cell._args', 'format_output',
               'RangesAssembler.__call__', 'InvRangesAssembler.__call__'):
         add(p.func('formulas/cell.py', q), 'dispatch-time callable')
+    for q in ('ExcelModel.calculate', 'ExcelModel.__call__',
+              'ExcelModel.compile', 'ExcelModel.to_dict'):
+        add(p.func('formulas/excel/__init__.py', q),
+            'model-level operation that must leave the model unchanged')
     for q in ('Ranges.value', 'Ranges.__and__', 'Ranges.__or__',
               'Ranges.__add__', 'Ranges.__sub__', 'Ranges.intersect',
               'Ranges.simplify', 'Ranges._merge', 'Ranges.format_range',
@@ -380,12 +384,14 @@ def rule_names(ctx):
                     and 'inv' in n.slice.value.lower():
                 (writers if isinstance(n.ctx, ast.Store) else readers).append(
                     (f, n, n.slice.value))
-            elif isinstance(n, ast.Call) and call_name(n) == 'get' and n.args \
-                    and isinstance(n.args[0], ast.Constant) and isinstance(
-                    n.args[0].value, str) and 'inv' in n.args[0].value.lower():
+            elif isinstance(n, ast.Call) and call_name(n) in ('get', 'pop') \
+                    and n.args and isinstance(n.args[0], ast.Constant) and \
+                    isinstance(n.args[0].value, str) and \
+                    'inv' in n.args[0].value.lower():
                 readers.append((f, n, n.args[0].value))
     rr.instances = len(writers) + len(readers)
-    comp = p.func('formulas/excel/__init__.py', 'ExcelModel.compile')
+    from .c08 import _model_compile
+    comp = _model_compile(ctx)
     rkeys = {k for f, n, k in readers if f is comp}
     wkeys = {k for f, n, k in writers}
     if not rkeys:
